@@ -30,9 +30,20 @@ def local_defs(fn):
                     count[t.id] = count.get(t.id, 0) + 1
                     defs[t.id] = n.value
                 elif isinstance(t, ast.Tuple):
-                    for e in t.elts:
-                        if isinstance(e, ast.Name):
-                            count[e.id] = count.get(e.id, 0) + 2
+                    simple = len(n.targets) == 1 and all(isinstance(e, ast.Name) for e in t.elts)
+                    for i, e in enumerate(t.elts):
+                        if isinstance(e, ast.Name) and simple:
+                            # a, b = E   ->   a is E[0], b is E[1]  (element i of a literal tuple of the same length)
+                            count[e.id] = count.get(e.id, 0) + 1
+                            if isinstance(n.value, (ast.Tuple, ast.List)) and len(n.value.elts) == len(t.elts) and \
+                                    not any(isinstance(x, ast.Starred) for x in n.value.elts):
+                                defs[e.id] = n.value.elts[i]
+                            else:
+                                defs[e.id] = ast.Subscript(value=n.value, slice=ast.Constant(value=i), ctx=ast.Load())
+                        else:
+                            for x in ast.walk(e):
+                                if isinstance(x, ast.Name):
+                                    count[x.id] = count.get(x.id, 0) + 2
         elif isinstance(n, (ast.AugAssign, ast.AnnAssign)) and isinstance(n.target, ast.Name):
             count[n.target.id] = count.get(n.target.id, 0) + 2
         elif isinstance(n, (ast.For, ast.comprehension)):
